@@ -60,24 +60,30 @@ def _pre_spans(n):
 
 
 def ob_add(n, timeout):
-    P = I("idx", "useidx", "nm") + F("M", "m0", "m1", "m2", "nlo", "nhi")
+    P = I("idx", "useidx", "nm", "strict") + F("M", "m0", "m1", "m2", "nlo", "nhi")
 
-    def pre(idx, useidx, nm, M, m0, m1, m2, nlo, nhi):
-        return _pre_spans(n)(M, m0, m1, m2) and (-6 <= idx <= 6) and (0 <= useidx <= 1) and (0 <= nm <= 3) and bool((0.0 <= nlo) & (nlo <= nhi) & (nhi <= 1024.0))
+    def pre(idx, useidx, nm, strict, M, m0, m1, m2, nlo, nhi):
+        return _pre_spans(n)(M, m0, m1, m2) and (-6 <= idx <= 6) and (0 <= useidx <= 1) and (0 <= nm <= 3) and (0 <= strict <= 1) and bool((0.0 <= nlo) & (nlo <= nhi) & (nhi <= 1024.0))
 
-    def body(idx, useidx, nm, M, m0, m1, m2, nlo, nhi):
+    def body(idx, useidx, nm, strict, M, m0, m1, m2, nlo, nhi):
         tg = _build(n, M, [m0, m1, m2])
         model = list(ARR[n])
         before = _state(tg)
         new = IntervalTier(NAMES[nm], [], nlo, nhi)
         try:
-            tg.addTier(new, idx if useidx else None, "silence")
+            tg.addTier(new, idx if useidx else None, "error" if strict else "silence")
+        except errors.TextgridStateAutoModified:
+            if not strict or NAMES[nm] in model or not (n > 0 and nhi > M):
+                return "spurious TextgridStateAutoModified"
+            return True if _state(tg) == before else "changed although addTier raised"
         except errors.TierNameExistsError:
             if NAMES[nm] not in model:
                 return "spurious TierNameExistsError"
             return True if _state(tg) == before else "changed although addTier raised"
         if NAMES[nm] in model:
             return "duplicate name accepted"
+        if strict and n > 0 and nhi > M:
+            return "span change not reported under reportingMode='error'"
         if useidx:
             model.insert(idx, NAMES[nm])
         else:
@@ -263,10 +269,18 @@ def ob_merge(order, preserve, timeout):
         for t in (A, Pt, B, O, Q):
             tg.addTier(t)
         before = snap_tg(tg)
-        sel = {"none": None, "all-in-order": ["a", "p", "b", "q"], "reversed": ["q", "b", "p", "a"]}[order]
+        sel = {"none": None, "all-in-order": ["a", "p", "b", "q"], "reversed": ["q", "b", "p", "a"], "empty": []}[order]
         r = tg.mergeTiers(sel, preserve)
         if snap_tg(tg) != before:
             return "receiver mutated"
+        if order == "empty":  # nothing selected: nothing is fused
+            want = ["a", "p", "b", "other", "q"] if preserve else []
+            if list(r.tierNames) != want:
+                return "empty selection must not fuse anything"
+            for nm in want:
+                if snap_tier(r.getTier(nm)) != snap_tier(tg.getTier(nm)):
+                    return "tier changed although nothing was selected"
+            return True
         if order == "reversed":
             ei, ep = B.union(A), Q.union(Pt)
         elif order == "none":  # every tier is selected, in textgrid order
@@ -296,8 +310,9 @@ def obligations(tier):
     if tier == "quick":
         obs.append(ob_merge("none", True, T))
         obs.append(ob_merge("reversed", False, T))
+        obs.append(ob_merge("empty", True, T))
     else:
-        for o in ("none", "all-in-order", "reversed"):
+        for o in ("none", "all-in-order", "reversed", "empty"):
             for p in (True, False):
                 obs.append(ob_merge(o, p, T))
     # tier-wise edits: the Textgrid-level obligations of C06-C09 (each result tier == the
